@@ -53,10 +53,9 @@ def gen_jobs(ctx):
                          {"name": "a2", "dtype": "uint8" if fmt == "fb" else "bytes", "shape": [3] if fmt == "fb" else []}]
                 if not applicable(kind, attrs[which]):
                     continue
-                pos = rng.choice([0, 1, 2])
-                writes = [{"kind": "good", "attr": 0} for _ in range(5)]
-                writes[pos] = {"kind": kind, "attr": which}
-                if ctx.tier == "thorough" or rng.random() < 0.45:
+                for pos in (0, 1, 2):      # first / middle / last write of the first shard; good writes follow in the same and the next shard
+                    writes = [{"kind": "good", "attr": 0} for _ in range(5)]
+                    writes[pos] = {"kind": kind, "attr": which}
                     jobs.append({"format": fmt, "attrs": attrs, "eps": 3, "writes": writes})
     # every dtype a format supports or not, alone, with one shape violation and one dtype violation
     for fmt in ("fb", "npz", "tfrec"):
